@@ -60,6 +60,11 @@ type c20Env struct {
 // The versions differ in how a line ends: by running off the end of the program, in a final
 // `stop`, or in a `stop` in the trailing else branch of a condition no line meets.
 func c20Prog(k int) string {
+	if k >= 100 {
+		// a version that compiles and that the store refuses (its first metric, `n`, is a counter
+		// in every other version): the load fails and the version before it keeps running
+		return fmt.Sprintf("gauge n\ngauge g\n/^(\\d+)$/ {\n  g = $1\n  n++\n}\n# version %d\n", k)
+	}
 	tail := ""
 	switch k % 3 {
 	case 1:
@@ -366,6 +371,11 @@ func init() {
 			// unload while the VM is inside a line, then add the program again
 			g.emit("sched", "w:1;load;l:1;sync;hold:2;l:2;rm;reload;w:2;reload;join;lq:3;wait:2;rel:2;sync")
 			g.emit("sched", "w:1;load;l:1;sync;rm;load;l:2;w:2;load;l:3;sync")
+			// a reload the store refuses (the new version changes the kind of a metric): the version
+			// that was running goes on taking every line
+			g.emit("sched", "w:1;load;l:1;l:2;sync;w:100;load;l:3;l:4;sync;w:2;load;l:5;sync")
+			g.emit("sched", "w:1;load;l:1;sync;w:100;reload;join;l:2;l:3;sync")
+			g.emit("sched", "w:2;load;l:1;sync;w:101;load;load;l:2;sync;w:2;load;l:3;sync;w:3;load;l:4;sync")
 			// identical content: no swap
 			g.emit("sched", "w:1;load;l:1;hold:2;l:2;reload;rel:2;l:3;sync")
 			n := 12
